@@ -69,6 +69,9 @@ pub struct RunOut {
     pub sample: Option<Value>,
     pub exec_trace: Vec<u64>,
     pub engine: &'static str,
+    /// the run did not come back within the wall-clock limit and was abandoned (its thread is left
+    /// behind); never a verdict
+    pub hung: bool,
 }
 
 impl RunOut {
@@ -95,8 +98,8 @@ pub struct SubBatch {
     pub thorough: usize,
 }
 
-pub trait Property: Sync {
-    type Sc: Serialize + DeserializeOwned + Clone + Send + Sync + std::fmt::Debug;
+pub trait Property: Sync + Send + Copy + 'static {
+    type Sc: Serialize + DeserializeOwned + Clone + Send + Sync + std::fmt::Debug + 'static;
     fn id(&self) -> &'static str;
     fn level(&self) -> &'static str;
     fn rule(&self) -> String;
@@ -122,6 +125,7 @@ pub trait Property: Sync {
 }
 
 /// Environment shared by the runs of a batch.
+#[derive(Clone)]
 pub struct Env {
     pub seed: u64,
     pub tier: Tier,
@@ -200,20 +204,45 @@ pub struct BatchResult {
 /// into the next through the harness's long-lived worker threads, so that a run - and its replay in
 /// another process - is a function of its scenario and decisions only.
 fn exec_fresh<P: Property>(p: &P, sc: &P::Sc, sub: &str, exec: Decider, env: &Env) -> RunOut {
-    std::thread::scope(|s| {
-        let h = std::thread::Builder::new()
-            .name("qsim-run".into())
-            .stack_size(64 << 20)
-            .spawn_scoped(s, move || {
-                crate::simcore::mark_harness_thread();
-                p.execute(sc, sub, exec, env)
-            })
-            .expect("spawn run thread");
-        match h.join() {
-            Ok(out) => out,
-            Err(e) => std::panic::resume_unwind(e),
+    let (pp, sc2, sub2, env2) = (*p, sc.clone(), sub.to_string(), env.clone());
+    let (tx, rx) = std::sync::mpsc::channel();
+    std::thread::Builder::new()
+        .name("qsim-run".into())
+        .stack_size(64 << 20)
+        .spawn(move || {
+            crate::simcore::mark_harness_thread();
+            let r = std::panic::catch_unwind(std::panic::AssertUnwindSafe(|| pp.execute(&sc2, &sub2, exec, &env2)));
+            let _ = tx.send(r);
+        })
+        .expect("spawn run thread");
+    // A run that blocks (a real lock held across a scheduling point of the simulated pool) or loops
+    // for ever (a corrupted data structure walked by the code under test) is abandoned after the
+    // limit: its thread is left behind, the run counts as hung - never as a verdict - and the batch
+    // goes on, so that violations found by other runs are still minimised and reported.
+    let mut waited = 0u64;
+    loop {
+        match rx.recv_timeout(std::time::Duration::from_secs(5)) {
+            Ok(Ok(out)) => return out,
+            Ok(Err(e)) => std::panic::resume_unwind(e),
+            Err(std::sync::mpsc::RecvTimeoutError::Timeout) => {
+                waited += 5;
+                if waited >= run_limit_s() {
+                    eprintln!("qsim: a run of sub-batch {sub} has not finished after {waited}s of wall clock and is abandoned (the code under test blocks or loops)");
+                    return RunOut { engine: "native", inconclusive: true, hung: true, ..Default::default() };
+                }
+            }
+            Err(std::sync::mpsc::RecvTimeoutError::Disconnected) => panic!("run thread vanished"),
         }
-    })
+    }
+}
+
+/// Wall-clock limit for one run: QSIM_RUN_LIMIT_S (default 120 s), stretched by the load per core
+/// (at most 8x) - on an overloaded machine a runnable thread can wait a long time for a core.
+pub fn run_limit_s() -> u64 {
+    let base: u64 = std::env::var("QSIM_RUN_LIMIT_S").ok().and_then(|s| s.parse().ok()).unwrap_or(120);
+    let load = std::fs::read_to_string("/proc/loadavg").ok().and_then(|t| t.split(' ').next().and_then(|x| x.parse::<f64>().ok())).unwrap_or(0.0);
+    let cores = std::thread::available_parallelism().map(|n| n.get()).unwrap_or(1) as f64;
+    (base as f64 * (load / cores).clamp(1.0, 8.0)) as u64
 }
 
 fn one_run<P: Property>(p: &P, env: &Env, sub: &str, idx: usize) -> (P::Sc, RunOut) {
@@ -279,12 +308,20 @@ pub fn run_batch<P: Property>(p: &P, env: &Env, known: &KnownFile, threads: usiz
             while !all_done.load(Ordering::Relaxed) {
                 std::thread::sleep(std::time::Duration::from_millis(500));
                 let now = t0.elapsed().as_secs();
+                // on an overloaded machine (background sweeps, other builds) a runnable thread can
+                // wait a long time for a core: stretch the limit by the load per core (at most 8x),
+                // so that only a run that really blocks or loops is given up
+                let load = std::fs::read_to_string("/proc/loadavg").ok().and_then(|t| t.split(' ').next().and_then(|x| x.parse::<f64>().ok())).unwrap_or(0.0);
+                let cores = std::thread::available_parallelism().map(|n| n.get()).unwrap_or(1) as f64;
+                let stretch = (load / cores).clamp(1.0, 8.0);
+                // backstop only: exec_fresh abandons a run after the limit itself
+                let run_limit_s = (3.0 * run_limit_s as f64 * stretch) as u64;
                 for (ti, st) in started.iter().enumerate() {
                     let b = st.load(Ordering::Relaxed);
                     if b != 0 && now > b + run_limit_s {
                         let what = current[ti].lock().map(|g| g.clone()).unwrap_or_default();
                         eprintln!(
-                            "qsim: run {what} has not finished after {run_limit_s}s of wall clock (the code under test blocks or loops; under the simulated worker pool a real lock held across a scheduling point does this). The check cannot decide. (exit 2)"
+                            "qsim: run {what} has not finished after {run_limit_s}s of wall clock (load average {load:.1} on {cores} cores; the code under test blocks or loops; under the simulated worker pool a real lock held across a scheduling point does this). The check cannot decide. (exit 2)"
                         );
                         std::process::exit(2);
                     }
@@ -445,6 +482,7 @@ pub fn run_batch<P: Property>(p: &P, env: &Env, known: &KnownFile, threads: usiz
     let mut distinct: BTreeMap<String, BTreeSet<u64>> = BTreeMap::new();
     let mut steps = 0u64;
     let mut inconclusive = 0usize;
+    let mut hung: Vec<String> = vec![];
     let mut samples: Vec<Value> = vec![];
     let mut per_sub: BTreeMap<String, (usize, usize)> = BTreeMap::new();
     let mut engines: BTreeMap<String, u64> = BTreeMap::new();
@@ -470,6 +508,9 @@ pub fn run_batch<P: Property>(p: &P, env: &Env, known: &KnownFile, threads: usiz
         }
         *engines.entry(o.engine.to_string()).or_insert(0) += 1;
         steps += o.steps;
+        if o.hung {
+            hung.push(format!("sub={} idx={}", subs[r.sub].name, r.idx));
+        }
         if o.inconclusive {
             inconclusive += 1;
         }
@@ -596,6 +637,7 @@ pub fn run_batch<P: Property>(p: &P, env: &Env, known: &KnownFile, threads: usiz
             "distinct_by_measure": distinct_counts,
             "engine_split": engines,
             "inconclusive_budget": inconclusive,
+            "hung_runs_abandoned": hung.len(),
             "known_finding_hits": known_hits,
             "determinism_sample": {"runs_rerun_other_thread": det_checked, "runs_rerun_child_process": child_checked, "mismatches": det_mismatch},
             "real_vs_stub": p.real_vs_stub(),
@@ -624,8 +666,19 @@ pub fn run_batch<P: Property>(p: &P, env: &Env, known: &KnownFile, threads: usiz
     for w in &warn {
         println!("qsim: warning: {w}");
     }
+    if !hung.is_empty() {
+        eprintln!(
+            "qsim: {} run(s) did not come back within the wall-clock limit and were abandoned (the code under test blocks or loops there): {}. The properties checked here do not state termination, so this is not reported as a violation{}",
+            hung.len(),
+            hung.iter().take(5).cloned().collect::<Vec<_>>().join(", "),
+            if unknown > 0 { "." } else { "; but the check cannot decide those runs. (exit 2)" }
+        );
+    }
     if unknown > 0 {
         return BatchResult { exit: 1 };
+    }
+    if !hung.is_empty() {
+        return BatchResult { exit: 2 };
     }
     if det_mismatch > 0 {
         eprintln!("qsim: the simulation is not deterministic and no violation was found; nothing would replay. (exit 2)");
